@@ -15,7 +15,7 @@ META = {
     "engines": ["crosshair", "pysym"],
     "level_text": "Bounded model checking of the real visitor and printers: every prop-test visitor method on stubbed children for every operator "
                   "token x NOT present/absent with a symbolic constant (expected class, operator and negation parity, incl. NOT !=); every "
-                  "comparison of a generator (11 operators x legal constant kinds x 8 object paths incl. quoted, indexed, reference and hash steps "
+                  "comparison of a generator (11 operators x legal constant kinds x 11 object paths incl. quoted (also non-ASCII), indexed, reference and hash steps "
                   "x NOT) and every 3-atom boolean shape (AND/OR x 3 parenthesisations) and 3-observation shape (AND/OR/FOLLOWEDBY x 3 "
                   "parenthesisations x 4 qualifiers x 3 positions) through the real parser: the model tree must equal the generator's own tree, the "
                   "printed text must parse back to it and printing must be a fixed point; programmatic models with strings needing escapes; "
@@ -37,7 +37,7 @@ def obligations(tier):
         CH("visitor_negation_and_operator", H, "visitor_prop_tests", t, functions=FV[:7],
            bounds="7 visitor methods x every operator token x NOT flag (symbolic) x unbounded int constant"),
         CH("comparisons_roundtrip", H, "comparisons", t, mode="E1s", functions=FV + FP, stubs=[ANTLR],
-           bounds="22 (operator, constant kind) atoms x 8 object paths x NOT"),
+           bounds="22 (operator, constant kind) atoms x 11 object paths x NOT"),
         CH("boolean_structure", H, "boolean_structure", t, mode="E1s", functions=FV[7:9] + FP, stubs=[ANTLR],
            bounds="3 parenthesisations x AND/OR x AND/OR x atoms (%s x 4 x 4) x NOT" % ("8" if tier == "quick" else "22")),
         CH("observation_structure", H, "observation_structure", t, mode="E1s", functions=FV[9:12] + FP, stubs=[ANTLR],
@@ -48,10 +48,12 @@ def obligations(tier):
            bounds="7 four-atom AND/OR shapes x 3^4 assignments of 3 object types; patterns with an AND over disjoint types carry no claim"),
         CH("programmatic_paths", H, "programmatic_paths", t, mode="E1s", functions=FP + ["stix2.patterns.ListObjectPathComponent.__str__",
            "stix2.patterns._ObjectPathComponent.create_ObjectPathComponent", "stix2.patterns.ObjectPath.make_object_path"], stubs=[ANTLR],
-           bounds="9 programmatic object paths (list/reference/basic components, names needing quotes, string lhs) x NOT x 3 wrappers"),
+           bounds="10 programmatic object paths (list/reference/basic components, names needing quotes, string lhs) x NOT x 3 wrappers"),
         CH("programmatic_reuse", H, "programmatic_reuse", t, mode="E1s", functions=["stix2.patterns._BooleanExpression.__init__",
            "stix2.patterns.ParentheticalExpression.__init__"], bounds="a shared parenthetical OR used in two AND/OR expressions x 3^4 object types"),
         CH("exists_comparison", H, "exists_test", t, mode="E1s", functions=FV[-2:], stubs=[ANTLR], finding="C10-exists", bounds="[NOT] EXISTS x 3 paths"),
+        JOB("path_step_quoting_rule", "props.j_regex", "job_path_step", 120, engine="re2z3", functions=FP[6:7],
+            bounds="all strings: printed bare iff in the grammar's IdentifierWithoutHyphen (regex inclusion both ways)"),
         JOB("string_escaping", "props.j_esc", "job_escape", 600, functions=FP[7:8],
             bounds="every printable-ASCII string of length <= %d (symbolic characters)" % (4 if tier == "quick" else 6)),
     ]
